@@ -25,14 +25,20 @@ AWK = ['plain', 'com,ma', 'quo"te', 'new\nline', 'crlf\r\nname', 'ünï çödé 
        '-80C_freezer', '@SRR123', '=SUM(A1)', '+plus', '\tleading tab', "'apostrophe first", '#hash', '0123', ' ', '-', '1e5', 'None', 'true', 'nan']
 
 
-def build(rng, sc, awkward=True, bare_cr=False):
+def build(rng, sc, awkward=True, bare_cr=False, zeros=False):
 	from gambit.kmers import KmerSpec
 	kspec = KmerSpec(5, 'AT')
 	ntaxa = rng.randint(2, 6)
 	names = [f'{rng.choice(AWK) if awkward else "t"} T{i}' for i in range(ntaxa)]
 	if bare_cr:
 		names[0] = 'bare\rCR T0'
-	taxa = dbutil.rand_taxonomy(rng, ntaxa, thr_values=(None, 0.5, 0.75, 0.9, 1.0), names=names)
+	taxa = dbutil.rand_taxonomy(rng, ntaxa, thr_values=(None, 0.5, 0.75, 0.9, 1.0) if not zeros else (0.0, 0.0, 0.5, 1.0, None), names=names)
+	if zeros:
+		# values that are present but falsy: threshold 0.0, NCBI id 0, (below) an empty description and a query identical to a reference (distance 0.0)
+		taxa[0]['ncbi_id'] = 0
+		taxa[-1]['ncbi_id'] = 0
+		for t in taxa:
+			t['report'] = True
 	if bare_cr:
 		taxa[0]['thr'] = 1.0
 		taxa[0]['report'] = True
@@ -41,8 +47,11 @@ def build(rng, sc, awkward=True, bare_cr=False):
 		g['description'] = f'{rng.choice(AWK) if awkward else "d"} {g["key"]}'
 	if bare_cr:
 		genomes[0]['taxon'] = 0
+	if zeros:
+		genomes[0]['description'] = ''
 	d = sc.subdir()
 	dbutil.build_refdb(d, taxa=taxa, genomes=genomes, kspec=kspec, seqs=seqs)
+	build.last_seqs = seqs
 	return d, kspec, bases, taxa
 
 
@@ -168,7 +177,7 @@ def check(ctx, case):
 	from gambit.seq import SequenceFile
 	sc = dbutil.Scratch('gv_c11_')
 	try:
-		d, kspec, bases, taxa = build(rng, sc, awkward=case.get('awkward', True), bare_cr=case.get('bare_cr', False))
+		d, kspec, bases, taxa = build(rng, sc, awkward=case.get('awkward', True), bare_cr=case.get('bare_cr', False), zeros=case.get('zeros', False))
 		if case.get('two_gsets'):
 			return _check_two_gsets(ctx, case, rng, d, kspec, bases)
 		db = ReferenceDatabase.load_from_dir(d)
@@ -186,6 +195,10 @@ def check(ctx, case):
 				inputs.append(QueryInput(label, SequenceFile(f'/nonexistent/{i}.fa', 'fasta', 'auto')) if rng.random() < 0.5 else QueryInput(label))
 			if case.get('bare_cr'):
 				sigs[0] = calc_signature(kspec, bases[0])
+			if case.get('zeros'):
+				# queries that ARE reference genomes: distance exactly 0.0 to their closest match
+				for qi in range(min(2, nq)):
+					sigs[qi] = calc_signature(kspec, build.last_seqs[qi % len(build.last_seqs)])
 			res = query(db, sigs, QueryParams(classify_strict=case.get('strict', False), report_closest=rng.choice([1, 3, 10]), chunksize=case.get('chunksize', 1000)), inputs=inputs)
 			if case.get('tz') is not None:
 				# a timezone-aware / fractional / whole-second timestamp and caller-supplied extra metadata are part of the results too
@@ -373,6 +386,9 @@ def run(ctx):
 		ctx.submit(case, lines, nontrivial=nt, tags=[tag, f'strict={case.get("strict")}'], pyfails=pf)
 
 	sub({'seed': 1, 'bare_cr': True, 'awkward': False}, 'witness-C11-F1')
+	for j in range(ctx.q(6, 40)):
+		# present-but-falsy values (distance 0.0, threshold 0.0, NCBI id 0, empty description): early, so that a loaded machine still reaches them
+		sub({'seed': rng.randrange(10 ** 9), 'zeros': True, 'strict': j % 3 == 2, 'awkward': j % 2 == 0, 'chunksize': 1000, 'to_path': None}, 'falsy-values')
 	for j in range(ctx.q(6, 60)):
 		sub({'seed': rng.randrange(10 ** 9), 'two_gsets': True, 'reverse': j % 2 == 1, 'awkward': False}, 'two-genomesets-one-reader')
 	for j in range(ctx.q(140, 1200)):
